@@ -1206,5 +1206,10 @@ def check(program, rep):
     rep.guard("C02-R6", r6_raises, program, rep)
     rep.guard("C02-R6", r6_empty_population, program, rep)
     rep.guard("C02-R7", r7_link, program, rep)
+    # arguments handed to package functions under the wrong name / same-
+    # named optional parameters not passed on (NAMELINK, DESIGN.md 9.13)
+    from .. import namelink as _nl
+    rep.guard("C02-R8", _nl.rule, program, rep, "C02-R8",
+              [m for m in sorted(program.modules) if m.startswith("rig.place_and_route")])
     return finish(rep, program, EXPLANATION, NOT_DECIDED,
                   trusted=["resource-role table in rules/C02.py"])
